@@ -11,6 +11,13 @@ import DosModel.Proofs.PipeWitness
 namespace Dos.Props.C14
 open Dos Dos.Pipe
 
+/-- the scenarios of this file resolve in the frozen pipelines (see `Wit.scOf`) -/
+theorem old_scenarios_resolve :
+    Wit.resolves Old.helper_dosnode_mergeErrors (Wit.faninSpec "dosnode.mergeErrors" "dosnode.mergeErrors.out") = true ∧
+    Wit.resolves Old.helper_dkg_mergeErrors (Wit.faninSpec "dkg.mergeErrors" "dkg.mergeErrors.out") = true ∧
+    Wit.resolves Old.query_sys Wit.dispatchSpec = true ∧ Wit.resolves Old.query_sys Wit.recoverSpec = true := by
+  decide +kernel
+
 /-- the rules reject the fan-in as it was before 341405c (`return` before `wg.Done()`), and the bad
 schedule exists in the model: an error in flight when the deadline fires leaves the closer
 goroutine blocked for ever and the merged channel open (F16) -/
